@@ -136,8 +136,17 @@ def judge(job, res):
                 v.append(Violation("C03", "multiple-changesets/" + cm.split("/")[1], f"{len(css[path])} changesets for {path}", {"codemod": cm, "path": path})); continue
             try:
                 bt, at = b.decode("utf-8"), a.decode("utf-8")
-            except (UnicodeDecodeError, AttributeError):
+            except AttributeError:
                 st["undecodable"] += 1; continue
+            except UnicodeDecodeError:
+                # not UTF-8: read both sides the way Python reads the ORIGINAL file (BOM / PEP 263 cookie); a rewrite must stay in that encoding
+                import io, tokenize
+                try:
+                    enc, _ = tokenize.detect_encoding(io.BytesIO(b).readline); bt = b.decode(enc)
+                except Exception: st["undecodable"] += 1; continue
+                try: at = a.decode(enc)
+                except UnicodeDecodeError:
+                    v.append(Violation("C03", "output-not-in-declared-encoding", f"{path} declares {enc}; after {cm} its bytes no longer decode as {enc}", {"codemod": cm, "path": path, "job": job["id"], "encoding": enc})); continue
             detail = ""
             try:
                 got, _ = O.apply_unified(bt, css[path][0]["diff"]); ok = O.same_mod_final_newline(got, at)
